@@ -34,6 +34,13 @@ Theorem C16_dpseg_no_temp_left : forall hs, dp_left_behind dp_cfg_src hs = [].
 Proof. intros hs. apply dp_no_temp_left; reflexivity. Qed.
 Print Assumptions C16_dpseg_no_temp_left.
 
+(* parallel folds (njobs > 1): whatever the schedule, no fold can leave its output file, because the
+   folds run in threads (fix 0bab8df; with the process backend the theorem does not hold:
+   Proc.dp_processes_may_leave) *)
+Theorem C16_dpseg_no_temp_left_parallel : forall njobs hs, dp_may_leave dp_cfg_src njobs hs = [].
+Proof. intros njobs hs. apply dp_parallel_no_temp_left; reflexivity. Qed.
+Print Assumptions C16_dpseg_no_temp_left_parallel.
+
 (* why pipefail matters: without it every failure of the program is masked *)
 Theorem C16_masked_without_pipefail : forall c h, ag_pipefail c = false -> 1 <= ag_after c ->
   ag_run_raises c h = false.
